@@ -1380,6 +1380,9 @@ func (g *c36genWorld) genLine(r *rand.Rand) (line string, pos int) {
 		switch s := r.Intn(10); {
 		case s < 6 && len(g.binds) > 0:
 			start = pick(r, g.binds)
+			if _, fam := g.bindTy["q"]; fam && r.Intn(3) == 0 {
+				start = pick(r, []string{"q", "qp"})
+			}
 			t = g.bindTy[start]
 		case s < 8 && len(g.types) > 0:
 			start = pick(r, g.types).name
@@ -1467,6 +1470,59 @@ func (g *c36genWorld) genBind(r *rand.Rand, emit func(string)) {
 	emit(kind + " " + name + " " + strings.Join(t.toks(), " "))
 }
 
+// genFamily declares a wide AND deep embedding tree: every inner node embeds 2-3 structs (by value or
+// through a pointer), 3 levels, own fields and methods at every node -- so that the breadth-first walk of
+// VisitFields meets levels of different sizes, and names promoted from a LATER embedded struct exist.
+// Children are declared before their parent.  Returns the name of the root type.
+func (g *c36genWorld) genFamily(r *rand.Rand, root string, emit func(string)) string {
+	var build func(name string, level int)
+	build = func(name string, level int) {
+		gt := &c36genType{name: name, under: "S"}
+		if level < 2 {
+			nkids := 2 + r.Intn(2)
+			for k := 0; k < nkids; k++ {
+				kid := name + string(rune('a'+k))
+				build(kid, level+1)
+				ty := &c36ty{k: 'N', name: kid}
+				if r.Intn(3) == 0 {
+					ty = &c36ty{k: 'P', elem: ty}
+				}
+				gt.fields = append(gt.fields, c36field{name: kid, anon: true, acc: true, ty: ty})
+			}
+		}
+		// own fields: one unique to the node, sometimes one shared with other nodes (shadowing / duplicates)
+		own := []c36field{{name: "F" + name, acc: true, ty: &c36ty{k: 'B'}}}
+		if r.Intn(2) == 0 {
+			own = append(own, c36field{name: pick(r, []string{"Name", "X", "val", "Len"}), acc: true, ty: &c36ty{k: 'B', b: "s"}})
+		}
+		// fields before, between or after the embedded ones
+		at := r.Intn(len(gt.fields) + 1)
+		fs := append([]c36field{}, gt.fields[:at]...)
+		fs = append(fs, own...)
+		gt.fields = append(fs, gt.fields[at:]...)
+		ts := []string{"type", name, "S", strconv.Itoa(len(gt.fields))}
+		for _, f := range gt.fields {
+			ts = append(ts, f.name, c36b(f.anon), c36b(f.acc))
+			ts = append(ts, f.ty.toks()...)
+		}
+		g.types = append(g.types, gt)
+		emit(strings.Join(ts, " "))
+		for _, m := range []string{"M" + name, "M" + name + "p", pick(r, []string{"String", "Get", "Foo"})} {
+			dup := false
+			for _, f := range gt.fields {
+				dup = dup || f.name == m
+			}
+			if dup || r.Intn(3) == 0 {
+				continue
+			}
+			gt.methods = append(gt.methods, m)
+			emit("method " + name + " " + m)
+		}
+	}
+	build(root, 0)
+	return root
+}
+
 func c36genWorldOps(r *rand.Rand, emit func(string), nlines int, emitted map[string]bool) {
 	emit(c36resetOp())
 	for k := range emitted {
@@ -1485,13 +1541,28 @@ func c36genWorldOps(r *rand.Rand, emit func(string), nlines int, emitted map[str
 	for i := 0; i < nv; i++ {
 		g.genBind(r, emit)
 	}
+	// every other state: a wide and deep embedding tree with a value and a pointer variable of the root type
+	if r.Intn(2) == 0 {
+		root := g.genFamily(r, pick(r, []string{"Q", "W", "Tr"}), emit)
+		for _, v := range [][2]string{{"q", ""}, {"qp", "P "}} {
+			name := v[0]
+			if _, dup := g.bindTy[name]; !dup {
+				g.binds = append(g.binds, name)
+			}
+			t, _ := c36parseTy(strings.Fields(v[1] + "N " + root))
+			g.bindTy[name] = t
+			emit("var " + name + " " + strings.Join(t.toks(), " "))
+		}
+	}
+	used := nt
 	for i := 0; i < nlines; i++ {
 		line, pos := g.genLine(r)
 		emit(fmt.Sprintf("complete %d %s # %s", pos, c36encodeLine(line), strconv.QuoteToASCII(line)))
 		// keep declaring in the middle of a history: the state a line is completed in keeps changing
 		if i%15 == 14 {
-			if r.Intn(2) == 0 && len(g.types) < len(c36typeNames) {
-				g.genType(r, c36typeNames[perm[len(g.types)]], emit)
+			if r.Intn(2) == 0 && used < len(c36typeNames) {
+				g.genType(r, c36typeNames[perm[used]], emit)
+				used++
 			} else {
 				g.genBind(r, emit)
 			}
@@ -1505,12 +1576,21 @@ func c36genExhaustive(emit func(string)) {
 	emit("type A S 2 X 0 1 B Fo 0 1 B")
 	emit("method A Foo")
 	emit("method A Mp")
-	emit("type B S 2 A 1 1 P N A Y 0 1 N A")
+	emit("type B S 3 A 1 1 P N A Y 0 1 N A X 0 1 Bs")
 	emit("var a N A")
 	emit("var ab P N B")
 	emit("var fo B")
 	emit("func foo B")
-	lines := []string{"a.F", "ab.A.Fo", "ab . Y . M", "fo", "fo ", " fo", "x+fo)", "ab.", "ab. ", "a.X.", "1ab", "12ab", "a.1F", "é+fo", "\"世\".F", "fo.é", "f(ab.Y.F, a.", "ab..A", ".fo", "a.Foo.x", "A.F", "B.A.", "nil.", "fo ", "goto", "ma", "te", "x.y().F"}
+	emit("func println B")
+	// wide and deep embedding: Outer{Left; Right}, Left{LeafA; LeafB}
+	emit("type LeafA S 1 Alpha 0 1 B")
+	emit("type LeafB S 1 Beta 0 1 B")
+	emit("type Left S 3 LeafA 1 1 N LeafA LeafB 1 1 N LeafB Lfield 0 1 B")
+	emit("type Right S 2 Rfield 0 1 B Rother 0 1 Bs")
+	emit("method Right Rmethod")
+	emit("type Outer S 3 Left 1 1 N Left Right 1 1 N Right Own 0 1 B")
+	emit("var outer N Outer")
+	lines := []string{"a.F", "ab.A.Fo", "ab . Y . M", "fo", "fo ", " fo", "x+fo)", "ab.", "ab. ", "a.X.", "1ab", "12ab", "a.1F", "é+fo", "\"世\".F", "fo.é", "f(ab.Y.F, a.", "ab..A", ".fo", "a.Foo.x", "A.F", "B.A.", "nil.", "fo ", "goto", "ma", "te", "x.y().F", "outer.R", "outer.", "outer. R", "outer.Left.", "pr", "ab. X", "ab.\tFo"}
 	for _, l := range lines {
 		n := utf8.RuneCountInString(l)
 		for p := 0; p <= n+1; p++ {
